@@ -7,6 +7,7 @@ import (
 	"fmt"
 	"go/token"
 	"go/types"
+	"regexp"
 	"sort"
 	"strings"
 
@@ -535,10 +536,15 @@ func c04Compress(c *Ctx, f *ssa.Function, digestField string) {
 	wCov := map[string][]cover{}
 	for _, h := range otherLoops {
 		var ind *induction
+		var others []induction
 		for _, p := range phisOf(h) {
 			if iv, ok := inductionOf(p); ok {
 				ivc := iv
-				ind = &ivc
+				if ivc.step == 1 && ind == nil {
+					ind = &ivc
+				} else {
+					others = append(others, ivc)
+				}
 			}
 		}
 		if ind == nil {
@@ -549,6 +555,13 @@ func c04Compress(c *Ctx, f *ssa.Function, digestField string) {
 			continue
 		}
 		lo := ind.init
+		// counters that advance together with j (a running byte offset): r*j when both start at 0
+		lockstep := map[ssa.Value]string{}
+		for _, o := range others {
+			if ind.init == 0 && o.init == 0 && o.step > 1 && sameBackEdges(ind.phi, o.phi) {
+				lockstep[o.phi] = fmt.Sprintf("%d*j", o.step)
+			}
+		}
 		for _, b := range f.Blocks {
 			if !h.Dominates(b) || b == h {
 				continue
@@ -574,15 +587,38 @@ func c04Compress(c *Ctx, f *ssa.Function, digestField string) {
 				for a, n := range arrays {
 					names[a] = n
 				}
+				for v, n := range lockstep {
+					names[v] = n
+				}
 				env := newCanon(names)
 				idx := env.canonIdx(ia.Index).String()
 				got := env.canon(s.Val).String()
 				var want *X
 				construct := ""
-				j := L("j")
-				w := func(off string) *X { return Op("idx", L("W"), L("j"+off)) }
+				// a re-indexed loop stores at j+d: the formulas are the standard's with every index shifted by d, and
+				// the positions written are [lo+d, hi+d)
+				d := int64(0)
+				if m := reJShift.FindStringSubmatch(idx); m != nil && m[1] != "" {
+					fmt.Sscanf(m[1], "%d", &d)
+				}
+				offS := func(o int64) string {
+					switch {
+					case o == 0:
+						return ""
+					case o > 0:
+						return fmt.Sprintf("+%d", o)
+					}
+					return fmt.Sprintf("%d", o)
+				}
+				lo, hi := lo+d, hi+d
+				j := L("j" + offS(d))
+				w := func(off string) *X {
+					var o int64
+					fmt.Sscanf(off, "%d", &o)
+					return Op("idx", L("W"), L("j"+offS(o+d)))
+				}
 				switch {
-				case arr == "W" && hi <= 16:
+				case arr == "W" && hi <= 16 && d == 0:
 					want = Op("be32", Op("slice", L("M"), L("4*j"), L("4*j+4")))
 					construct = "W[j], j<16 (big-endian words)"
 				case arr == "W" && lo >= 16:
@@ -596,7 +632,7 @@ func c04Compress(c *Ctx, f *ssa.Function, digestField string) {
 					continue
 				}
 				c.Evals += 10
-				if idx != "j" {
+				if idx != "j"+offS(d) {
 					c.Violated(rule, fn, construct, "store index is "+idx+", expected j", s.Pos())
 					continue
 				}
@@ -956,6 +992,8 @@ func c04LenPad(c *Ctx, write, sum *ssa.Function) {
 	// (d) 0x80 first: the append of 0x80 dominates all other appends
 	// (e) pad must start from the unprocessed tail: first append's base derives from a receiver field
 }
+
+var reJShift = regexp.MustCompile(`^j([+-][0-9]+)?$`)
 
 func appendedConstByte(v ssa.Value) (int64, bool) {
 	x, ok := appendedValue(v)
